@@ -347,7 +347,11 @@ Definition escrow_address (who : Z) (t : target) : option (Z * list Z) :=
   | TMiner o w _ => Some (o, [o; w])
   end.
 
-Definition withdraw_balance (st : state) (caller who : Z) (t : target) (amount : Z) : state * list Z :=
+(* payout_fails: the exit code of the payout transfer when that nested send fails (it cannot fail by
+   itself for an existing recipient; the harness injects the failure): the whole call then fails with that
+   code and nothing changes *)
+Definition withdraw_balance (st : state) (caller who : Z) (t : target) (amount : Z) (payout_fails : option Z)
+  : state * list Z :=
   if amount <? 0 then (st, [ILLEGAL_ARGUMENT]) else
   match escrow_address who t with
   | None => (st, [ILLEGAL_ARGUMENT])
@@ -356,8 +360,12 @@ Definition withdraw_balance (st : state) (caller who : Z) (t : target) (amount :
       match bt_sub_with_min (escrow st) who amount (bt_get (locked st) who) with
       | None => (st, [ILLEGAL_ARGUMENT])
       | Some (e', ex) =>
-          if balance st <? ex then (st, [SEND_FAILED]) else
-          (set_funds (set_escrow st e') (balance st - ex) (burnt st), [OK; ex; recipient])
+          match payout_fails with
+          | Some c => (st, [c])
+          | None =>
+              if balance st <? ex then (st, [SEND_FAILED]) else
+              (set_funds (set_escrow st e') (balance st - ex) (burnt st), [OK; ex; recipient])
+          end
       end
   end.
 
@@ -755,7 +763,7 @@ Definition cron_tick (st : state) (caller epoch : Z) : state * list Z :=
 (* ---- operations ---- *)
 Inductive op :=
 | AddBalance (epoch who : Z) (t : target) (value : Z)
-| Withdraw (caller epoch who : Z) (t : target) (amount : Z)
+| Withdraw (caller epoch who : Z) (t : target) (amount : Z) (payout_fails : option Z)
 | Publish (caller epoch : Z) (t : target) (deals : list pdeal)
 | Activate (caller : Z) (is_miner : bool) (epoch : Z) (sectors : list (Z * Z * list Z))
 | ContentChanged (caller : Z) (is_miner : bool) (epoch : Z) (sectors : list (Z * Z * list piece))
@@ -766,14 +774,14 @@ Inductive op :=
 
 Definition op_epoch (o : op) : Z :=
   match o with
-  | AddBalance e _ _ _ | Withdraw _ e _ _ _ | Publish _ e _ _ | Activate _ _ e _
+  | AddBalance e _ _ _ | Withdraw _ e _ _ _ _ | Publish _ e _ _ | Activate _ _ e _
   | ContentChanged _ _ e _ | Terminate _ _ e _ _ | Settle e _ | Cron _ e | GetBalance e _ _ => e
   end.
 
 Definition step (st : state) (o : op) : state * list Z :=
   match o with
   | AddBalance _ who t v => add_balance st who t v
-  | Withdraw c _ who t a => withdraw_balance st c who t a
+  | Withdraw c _ who t a pf => withdraw_balance st c who t a pf
   | Publish c e t ds => publish st c e t ds
   | Activate c m e ss => batch_activate st c m e ss
   | ContentChanged c m e ss => sector_content_changed st c m e ss
